@@ -282,6 +282,22 @@ def observe(sc, repo, model, timeout=120):
             verdicts.append(("C05", {"kind": "target groups differ from what analyze / the dependency layering shows",
                                      "scenario": desc, "expected": "one target at a time", "observed": s}))
             return verdicts, info
+    # the selection model (`Model/Select.lean`: selectGroups), for every mode
+    mt = [{"path": t["path"], "uses": t.get("uses", []), "ignores": []} for t in sc.targets]
+    mode = "changed" if not sc.named else ("deps" if sc.deps else "named")
+    names = exp_targets if not sc.named else sc.named
+    ms = model.ask({"op": "select", "targets": mt, "mode": mode, "names": names})
+    mg = ms["model"].get("ok")
+    if mg is None:
+        verdicts.append(("MODEL", {"kind": "the selection model rejects a configuration the run accepted", "scenario": desc, "model": ms["model"]}))
+    else:
+        mgs = [sorted(g) for g in mg]
+        for st in struct:
+            same = (sorted(map(tuple, st)) == sorted(map(tuple, mgs))) if mode == "named" else (st == mgs)
+            if not same:
+                verdicts.append(("MODEL", {"kind": "model and implementation select different target groups", "scenario": desc,
+                                           "mode": mode, "implementation": st, "model": mgs}))
+                break
     # plan with ids
     plan = []
     ids = {}
